@@ -363,5 +363,42 @@ class ObjectHistories(Family):
         return kind, True
 
 
+class ShortSignatures(Family):
+    """valid triples whose strict-DER signature is as short as it gets (r and s in 1..127 and around 2^8k): the public
+    key is *recovered* from (r, s, digest) by the reference, so the triple is valid by construction; also the same
+    checks with the key and the signature handed over as bytearray / memoryview"""
+    name = 'short_and_oddly_sized_signatures'
+    nontrivial_rule = 'reference recovery produced a key'
+
+    def cases(self, shard, tier):
+        vals = [1, 2, 3, 0x7f, 0x80, 0xff, 0x100, 0x7fff, 0x8000, 2 ** 64, 2 ** 128 - 1, 2 ** 247, 2 ** 248]
+        for r in vals:
+            for s in vals:
+                for recid in (0, 1):
+                    yield (r, s, recid)
+
+    def check(self, case):
+        from bitcoin.core.key import CPubKey
+        r, s, recid = case
+        h = DIGESTS[6]
+        pt = EC.recover(recid, r, s, h)
+        if pt is None or s > EC.HALF_N:
+            return 'no-key', False
+        if not EC.verify(pt, h, r, s):
+            raise HarnessError('reference recover / verify inconsistent')
+        sig = EC.der_encode(r, s)
+        for comp in (True, False):
+            pb = EC.encode_point(pt, comp)
+            for wrap in (bytes, bytearray, memoryview):
+                pk = CPubKey(wrap(pb))
+                if not pk.is_fullyvalid or bytes(pk) != pb:
+                    raise Viol('CPubKey(%s of a valid key)' % wrap.__name__, True, pk.is_fullyvalid)
+                if not pk.verify(h, sig):
+                    raise Viol('valid %d-byte strict-DER signature (r=%#x, s=%#x) rejected (key as %s)' % (len(sig), r, s, wrap.__name__), True, False)
+                if pk.verify(DIGESTS[7], sig):
+                    raise Viol('signature accepted for another digest', False, True)
+        return '%d-byte signature' % len(sig), True
+
+
 def families(tier):
-    return [Derivation(), Signing(), LowS(), VerifyTable(), PubkeyGrid(), ObjectHistories()]
+    return [Derivation(), Signing(), LowS(), VerifyTable(), PubkeyGrid(), ObjectHistories(), ShortSignatures()]
